@@ -76,6 +76,13 @@ impl<'a, W: AsyncWrite + Unpin> QueryResponseWriter<'a, W> {
         }
     }
 
+    /// A sequence result repeats an event (and its id) in every sequence it is part of:
+    /// such rows are not duplicates and must all be written
+    pub fn with_repeated_event_ids(mut self) -> Self {
+        self.event_id_idx = None;
+        self
+    }
+
     pub async fn write(mut self, stream: QueryBatchStream) -> io::Result<()> {
         match self.renderer.streaming_format() {
             StreamingFormat::Json => self.write_json(stream).await,
